@@ -111,8 +111,13 @@ def main(argv):
         idxs = []
     for idx in idxs:
         progress.seek(0); progress.write("%d %.3f      \n" % (idx, time.time())); progress.flush()
+        tc = time.time()
         rec = run_one(mod, seed, idx, tier, timeout_s)
+        tc = time.time() - tc
         agg["cases"] += 1
+        cur = agg["worst"].get("case_wall_s")
+        if cur is None or tc > cur[0]:
+            agg["worst"]["case_wall_s"] = [tc, idx]
         c = rec.get("cls", "?")
         agg["cls"][c] = agg["cls"].get(c, 0) + 1
         sig = rec.get("sig")
